@@ -1,1 +1,3 @@
--- property theorem modules are imported here as they come into existence
+import Props.C01
+import Props.C02
+import Props.C10
